@@ -66,6 +66,7 @@ class ModelBackend:
         b = ModelBackend(self.decide)
         b.files = dict(self.files)
         b.dirs = dict(self.dirs)
+        b.links = [set(g) for g in (getattr(self, "links", None) or [])]
         return b
 
     # -- probes
@@ -105,26 +106,55 @@ class ModelBackend:
     def rmdir1(self, p):
         self.dirs.pop(p, None)
 
+    def _group(self, p):
+        """names that are hard links of the same file as p (p included)"""
+        g = getattr(self, "links", None)
+        if not g:
+            return [p]
+        for grp in g:
+            if p in grp:
+                return sorted(grp)
+        return [p]
+
+    def _ungroup(self, p):
+        for grp in getattr(self, "links", None) or []:
+            grp.discard(p)
+
     def create(self, p, data=b""):
+        self._ungroup(p)
         self.files[p] = Ent(True, data)
 
     def read(self, p):
         return self.files[p].get()
 
     def write(self, p, data):
-        self.files[p] = Ent(True, data)
+        for q in self._group(p):           # in-place modification is seen through every name of the file
+            self.files[q] = Ent(True, data)
 
     def remove(self, p):
+        self._ungroup(p)
         self.files[p] = Ent(False, b"")
 
     def rename(self, s, d):
         e = self.files[s]
+        self._ungroup(d)
+        for grp in getattr(self, "links", None) or []:
+            if s in grp:
+                grp.discard(s)
+                grp.add(d)
         self.files[d] = Ent(True, e.data)      # the (possibly lazy) content moves with the entry
         self.files[s] = Ent(False, b"")
 
     def link(self, s, d):
-        # a second name for the same content, created in one step (writes through one name are not modelled to
-        # show through the other: the code under test never writes to a file it linked)
+        # a second name for the same file, created in one step
+        if not hasattr(self, "links") or self.links is None:
+            self.links = []
+        for grp in self.links:
+            if s in grp:
+                grp.add(d)
+                break
+        else:
+            self.links.append({s, d})
         self.files[d] = Ent(True, self.files[s].data)
 
     def listdir(self, p):
@@ -228,6 +258,9 @@ class FS:
         self.on_point = None      # callable(kind, path): scheduling point
         self.owner_of = None      # optional callable() -> label of the running thread (for traces)
         self.hardlinks = None     # optional callable() -> bool: does this file system support hard links?
+        self.crossfs = None       # optional callable() -> bool: are the store's sub-trees / the temp directory /
+        #                           the caller's files on different file systems? (rename and link across: EXDEV)
+        self.logdebug = None      # optional callable() -> bool: is debug logging enabled in this deployment?
 
     # ---- injection points
     def _count(self, kind, path):
@@ -336,10 +369,23 @@ class FS:
             if not h._closed and h.name == path:
                 h._orphan = True              # unlinked while open: later writes reach no name
 
+    @staticmethod
+    def area(path):
+        """the unit that a deployment may put on a file system of its own"""
+        parts = path.split("/")
+        if len(parts) > 2 and parts[1] == "s" and parts[2] in ("objects", "metadata", "refs"):
+            return "/s/" + parts[2]
+        return "/" + (parts[1] if len(parts) > 1 else "")
+
+    def _xdev(self, src, dst):
+        if self.crossfs is not None and self.area(src) != self.area(dst) and self.crossfs():
+            raise OSError(errno.EXDEV, "Invalid cross-device link", src)
+
     def rename(self, src, dst):
         src = self.p(src)
         dst = self.p(dst)
         self.tick("rename", dst)
+        self._xdev(src, dst)
         if not self.b.isfile(src):
             raise FileNotFoundError(errno.ENOENT, "No such file or directory", src)
         self._need_parent(dst)
@@ -358,6 +404,7 @@ class FS:
         self.tick("link", dst)
         if self.hardlinks is not None and not self.hardlinks():
             raise PermissionError(errno.EPERM, "Operation not permitted (file system without hard links)", src)
+        self._xdev(src, dst)
         if not self.b.isfile(src):
             raise FileNotFoundError(errno.ENOENT, "No such file or directory", src)
         self._need_parent(dst)
@@ -590,8 +637,22 @@ class FakeFile(_io.BufferedIOBase):
         self._pos += sum(t[1] for t in toks)
         return "".join(t[0] for t in toks)
 
+    def _plain(self):
+        """text mode fast path: the decoded rest of the file when it needs no newline translation, else None"""
+        self._chk()
+        self._sync()
+        s = self._cur()[self._pos:].decode(self._enc, self._errors)
+        if "\r" in s or self._errors != "strict":
+            return None
+        return s
+
     def read(self, n=-1):
         if self._text:
+            s = self._plain()
+            if s is not None:
+                out = s if n is None or n < 0 else s[:n]
+                self._pos += len(out.encode(self._enc))
+                return out
             toks = self._tokens()
             return self._take(toks if n is None or n < 0 else toks[:n])
         return self._readbytes(n)
@@ -601,6 +662,12 @@ class FakeFile(_io.BufferedIOBase):
 
     def readline(self, limit=-1):
         if self._text:
+            s = self._plain()
+            if s is not None:
+                j = s.find("\n")
+                out = s if j < 0 else s[:j + 1]
+                self._pos += len(out.encode(self._enc))
+                return out
             toks = self._tokens()
             k = 0
             while k < len(toks):
@@ -619,12 +686,22 @@ class FakeFile(_io.BufferedIOBase):
         return d
 
     def readlines(self, hint=-1):
+        if self._text:
+            s = self._plain()
+            if s is not None and (hint is None or hint <= 0):
+                self._pos += len(s.encode(self._enc))
+                return s.splitlines(True) if not any(c in s for c in "\x0b\x0c\x1c\x1d\x1e\x85\u2028\u2029") \
+                    else [x + "\n" for x in s.split("\n")[:-1]] + ([s.split("\n")[-1]] if s.split("\n")[-1] else [])
         out = []
+        total = 0
         while True:
             ln = self.readline()
             if not ln:
                 return out
             out.append(ln)
+            total += len(ln)
+            if hint is not None and hint > 0 and total > hint:
+                return out          # io: "no more lines will be read if the total size of all lines so far exceeds hint"
 
     def __iter__(self):
         return iter(self.readlines())
@@ -710,6 +787,26 @@ class _NS(types.SimpleNamespace):
 
 
 class _NullLog:
+    """a logger that writes nothing; whether debug output is enabled is the environment's choice"""
+    _fs = None
+
+    def __init__(self, fs_getter=None):
+        self.__dict__["_fs"] = fs_getter
+
+    def _debug_on(self):
+        fs = self._fs() if self._fs is not None else None
+        return bool(fs is not None and fs.logdebug is not None and fs.logdebug())
+
+    def isEnabledFor(self, level):
+        return level >= 30 or (level >= 10 and self._debug_on())
+
+    def getEffectiveLevel(self):
+        return 10 if self._debug_on() else 30
+
+    @property
+    def level(self):
+        return self.getEffectiveLevel()
+
     def __getattr__(self, n):
         return lambda *a, **k: None
 
@@ -752,7 +849,7 @@ class Shim:
 
         def named_tmp(dir=None, delete=True, **k):
             F = H.fs
-            d = FS.p(dir)
+            d = FS.p(dir if dir is not None else "/tmp")
             F.tmpctr += 1
             name = posixpath.join(d, "tmp%04d" % F.tmpctr)
             F.tick("create", name)
@@ -938,17 +1035,18 @@ class Shim:
         self.fcntl = types.SimpleNamespace(flock=flock, LOCK_EX=2, LOCK_UN=8, LOCK_SH=1, LOCK_NB=4)
         self.atexit = types.SimpleNamespace(register=lambda f, *a, **k: f, unregister=lambda f: None)
         self.logging = types.SimpleNamespace(
-            getLogger=lambda n=None: _NullLog(), debug=lambda *a, **k: None, info=lambda *a, **k: None,
+            getLogger=lambda n=None: _NullLog(lambda: H.fs), debug=lambda *a, **k: None, info=lambda *a, **k: None,
             warning=lambda *a, **k: None, error=lambda *a, **k: None, critical=lambda *a, **k: None,
             basicConfig=lambda *a, **k: None, DEBUG=10, INFO=20, WARNING=30, ERROR=40, CRITICAL=50)
         self.inspect = types.SimpleNamespace(stack=lambda: [_Fr, _Fr, _Fr])
+        self.gettempdir = lambda: "/tmp"
         self.Path = FakePath
 
     def install(self, mod, extra=None):
         """Replace the module globals of a loaded copy of the code under test."""
         repl = dict(os=self.os, shutil=self.shutil, io=self.io, open=self.open,
                     NamedTemporaryFile=self.NamedTemporaryFile, fcntl=self.fcntl, atexit=self.atexit,
-                    logging=self.logging, inspect=self.inspect, Path=self.Path)
+                    logging=self.logging, inspect=self.inspect, Path=self.Path, gettempdir=self.gettempdir)
         if extra:
             repl.update(extra)
         for k, v in repl.items():
